@@ -233,7 +233,10 @@ def scalar_of_factors(factors):
 
 
 def tk_to_model(tkc):
-    """A (possibly plain pytket) circuit as the model's from_tk input."""
+    """A (possibly plain pytket) circuit as the model's from_tk input: what from_tk itself
+    iterates over, i.e. get_commands() of the upgraded circuit."""
+    if not isinstance(tkc, dtk.Circuit):
+        tkc = dtk.Circuit.upgrade(tkc)
     psel = getattr(tkc, "post_selection", {}) or {}
     pp = getattr(tkc, "post_processing", None)
     nb = len(tkc.bits)
